@@ -322,3 +322,34 @@ Definition removes_more_than_named (s : schema) (_ : list action) (a : action) :
   end.
 Definition known_C02_remove_constraint_overmatch (s : schema) (acts : list action) : bool :=
   exists_step removes_more_than_named s acts.
+
+(* ---- C02-autoincrement-not-integer: a SmallInt primary key with auto_increment (supports_auto_increment accepts SmallInt,
+   column.rs) renders as "smallint … PRIMARY KEY AUTOINCREMENT"; SQLite allows AUTOINCREMENT only on a column declared exactly
+   INTEGER (sea-query maps BigInt to "integer" when the column auto-increments, SmallInt stays "smallint") *)
+Definition renders_bad_autoincrement (s : schema) (r : list action) (a : action) : bool :=
+  existsb (fun st => match st with
+                     | SCreateTable _ cols _ _ _ => existsb (fun c => (sc_autoinc c && negb (String.eqb (to_lower (sc_type c)) "integer"))%bool) cols
+                     | _ => false end) (stmts_of (gen s (pending_for a r) a)).
+Definition known_C02_autoincrement_not_integer (s : schema) (acts : list action) : bool :=
+  exists_step renders_bad_autoincrement s acts.
+
+(* ---- C05-enum-fill-before-rebuild: ModifyColumnType between two string enums with a fill_with mapping: the UPDATEs that
+   rewrite the removed labels run BEFORE the rebuild (modify_column_type.rs:106-109), i.e. under the OLD CHECK clause; a
+   replacement label that the old enum did not have (a label added by the same change) violates it *)
+Definition maps_to_new_label (s : schema) (_ : list action) (a : action) : bool :=
+  match a with
+  | ModifyColumnType t c _ (Some m) =>
+      match find_table t s with
+      | Some td =>
+          match find_col c (t_columns td) with
+          | Some cd => match c_type cd with
+                       | TEnum _ (EVString old) => existsb (fun kv => negb (mem_str (snd kv) old)) m
+                       | _ => false
+                       end
+          | None => false
+          end
+      | None => false
+      end
+  | _ => false
+  end.
+Definition known_C05_enum_fill_before_rebuild (s : schema) (acts : list action) : bool := exists_step maps_to_new_label s acts.
